@@ -63,22 +63,23 @@ Proof.
 Qed.
 
 (* ---------- the table of visited pairs ---------- *)
-Definition HM : N := 1073741789.
+(* hash without division: multiply by small constants and mask to 24 bits *)
+Definition HM : N := 16777215.
 Fixpoint hash_cs (cs : cset) : N :=
   match cs with
   | [] => 7
-  | p :: t => (fst p * 131 + snd p * 31 + hash_cs t * 17 + 3) mod HM
+  | p :: t => N.land (fst p * 131 + snd p * 31 + hash_cs t * 17 + 3) HM
   end.
 Fixpoint re_hash (r : re) : N :=
   match r with
   | Empty => 1
   | Eps => 2
-  | Chr cs => (hash_cs cs * 5 + 11) mod HM
-  | Cat a b => (re_hash a * 257 + re_hash b * 65537 + 13) mod HM
-  | Alt a b => (re_hash a * 263 + re_hash b * 65539 + 17) mod HM
-  | Star a => (re_hash a * 269 + 19) mod HM
+  | Chr cs => N.land (hash_cs cs * 5 + 11) HM
+  | Cat a b => N.land (re_hash a * 37 + re_hash b * 101 + 13) HM
+  | Alt a b => N.land (re_hash a * 43 + re_hash b * 107 + 17) HM
+  | Star a => N.land (re_hash a * 53 + 19) HM
   end.
-Definition pair_key (p : re * re) : positive := N.succ_pos ((re_hash (fst p) * 7919 + re_hash (snd p)) mod HM).
+Definition pair_key (p : re * re) : positive := N.succ_pos (N.land (re_hash (fst p) * 61 + re_hash (snd p)) HM).
 
 Definition table := PositiveMap.t (list (re * re)).
 Definition pair_eqb (p q : re * re) : bool := re_eqb (fst p) (fst q) && re_eqb (snd p) (snd q).
